@@ -309,3 +309,13 @@ def L_deep_field(desc, name):
 
 SWEEP = ["concurrent/test_id_allocator.cpp",
          "concurrent/test_deposit_box.cpp"]
+
+
+# name anchors (validated by tools/rename_sweep.py; a vanished name is exit 2, see core.check_anchor_names)
+ANCHORS = {
+    '_allocator': ['^babylon::internal::ThreadIdImpl(<|$)'],
+    '_next_value': ['^babylon::IdAllocator(<|$)'],
+    '_object': ['^babylon::DepositBox(<|$)'],
+    '_value': ['^babylon::internal::ThreadIdImpl(<|$)'],
+    'version': ['^babylon::DepositBox(<|$)', '^babylon::VersionedValue(<|$)'],
+}
